@@ -17,7 +17,7 @@ GEN_SECTIONS = ['GenDedup', 'GenBlock', 'GenCache', 'FP_store_events', 'FP_store
 COQ_TARGETS = ['Props/C06.vo']
 LEVEL = 'proof'
 MANIFEST = {
-    'text': 'Theorems (Coq, every interleaving of add_block, set_block, get_block, register_*, remove_duplicates (in place/copy), write and read, for arbitrary rounding functions): the cache-on and cache-off objects produce identical outputs and stores (bisimulation by induction over the operation list); every cached block equals decode of the current store; get_block(i) = decode(store, i); stored-is-returned (Proofs/SeqStored.v): after any history of block writes/reads, registrations and write() on a fresh sequence, a successful set_block/add_block with events by value makes the block decode to exactly the trapezoids (per channel: amplitude, rise, flat, fall, delay, trapezoid tag) and the ADC row of the call, and that stays so until the index is written again (faithful-lookup invariant of the gradient/ADC libraries proved inductive); decoding is monotone under library growth; by-value and by-id storage agree; equal events share one entry, distinct events never do. Random histories of 5-40 operations run on twin implementations (cache on/off) and on the extracted model, comparing every output and the full library state after each operation, plus a reference dictionary of last-stored content.',
+    'text': 'Theorems (Coq, every interleaving of add_block, set_block, get_block, register_*, remove_duplicates (in place/copy), write and read, for arbitrary rounding functions): the cache-on and cache-off objects produce identical outputs and stores (bisimulation by induction over the operation list); every cached block equals decode of the current store; get_block(i) = decode(store, i); stored-is-returned (Proofs/SeqStored.v): after any history of block writes/reads, registrations and write() on a fresh sequence, a successful set_block/add_block with events by value makes the block decode to exactly the trapezoids (per channel: amplitude, rise, flat, fall, delay, trapezoid tag), the ADC row, the RF row with its magnitude/phase/time shapes (all but the `use` tag: known finding) and the shape-based gradients with their waveform/time shapes of the call, and that stays so until the index is written again (faithful-lookup invariant of the gradient/ADC libraries proved inductive); decoding is monotone under library growth; by-value and by-id storage agree; equal events share one entry, distinct events never do. Random histories of 5-40 operations run on twin implementations (cache on/off) and on the extracted model, comparing every output and the full library state after each operation, plus a reference dictionary of last-stored content.',
     'note': 'Trusted: Coq kernel; source fingerprints of block.py/event_lib.py/sequence.py regions the model transcribes; extraction + driver; numeric extraction inside register_*_event is taken from the implementation; caller never mutates returned blocks. Known finding C06/rf-use-shared-entry (RF events differing only in `use` share one entry) is recorded, not repaired.',
     'technique': 'Rocq/Coq proof (simulation between cached and uncached state machines, invariant over all operation histories) + twin-implementation differential histories',
 }
